@@ -59,7 +59,7 @@ func encodeDate(date time.Time) []byte {
 		return []byte{_nilTag}
 	}
 	if date.Nanosecond() != 0 || date.Unix() < math.MinInt32 || date.Unix() > math.MaxInt32 {
-		value := date.UnixNano() / int64(time.Millisecond)
+		value := date.Unix()*1000 + int64(date.Nanosecond())/int64(time.Millisecond)
 
 		// 8 octet longs
 		return []byte{
@@ -103,7 +103,7 @@ func decodeDateValue(reader ByteRuneReader, flag int32) (time.Time, error) {
 		by := []byte{bf[0], bf[1], bf[2], bf[3], bf[4], bf[5], bf[6], bf[7]}
 		u64 := binary.BigEndian.Uint64(by)
 		i64 := *(*int64)(unsafe.Pointer(&u64))
-		return time.Unix(0, i64*int64(time.Millisecond)), nil
+		return time.Unix(i64/1000, (i64%1000)*int64(time.Millisecond)), nil
 	case _dateSecondStartTag:
 		buf, err := readBytes(reader, 4)
 		if err != nil {
